@@ -12,6 +12,7 @@ from .. import e2e
 from ..common import Hang, Rng, hx, unhx, watchdog
 from ..runner import Check
 from ..translate import c06_tables
+from . import c06_dedupe
 
 # ------------------------------------------------------------------ pools (names that collide after normalisation)
 NAMES = [
@@ -1417,6 +1418,9 @@ def search_embed_disagreements(ck: Check) -> None:
     campaign_e2e(ck, 250, " [search]")
     if ck.failures:
         return
+    c06_dedupe.search(ck)
+    if ck.failures:
+        return
     campaign_multidoc(ck, 300, exhaustive=True)
     if ck.failures:
         return
@@ -1466,6 +1470,8 @@ def run(ck: Check) -> None:
     campaign_modpass(ck, 300 if quick else 3000)
     campaign_worklist(ck, 120 if quick else 1200)
     campaign_e2e(ck, 100 if quick else 600)
+    c06_dedupe.campaign_collide(ck, 80 if quick else 800, 3 if quick else 4)
+    c06_dedupe.campaign_pass(ck, 300 if quick else 3000, 4 if quick else 5)
     campaign_multidoc(ck, 200 if quick else 1500, exhaustive=not quick)
     if not quick:
         campaign_e2e_exhaustive(ck, CORE_KEYS, 4, "")
@@ -1476,6 +1482,23 @@ def run(ck: Check) -> None:
 def replay(ck: Check, path: str) -> int:
     data = json.loads(open(path).read())
     inp = data.get("input") or (data.get("first_disagreement") or {}).get("input") or {}
+    if inp.get("dedupe_pass"):
+        c06_dedupe.campaign_pass(ck, 0, 0, " [replay]", cases=[{k: v for k, v in inp.items() if k != "dedupe_pass"}])
+        for f in ck.failures:
+            print("REPLAY-FAILS:", json.dumps(f.classification), f.observed[:300])
+        for d in ck.disagreements:
+            print("REPLAY-DISAGREES:", d.campaign, "model=", str(d.model)[:300], "impl=", str(d.impl)[:300])
+        if not ck.failures and not ck.disagreements:
+            print("replay: model and implementation agree and the oracle does not fail on this input")
+        return 1 if ck.failures or ck.disagreements else 0
+    if inp.get("collide"):
+        camp = ck.campaign("replay")
+        c06_dedupe.collide_oracle(ck, camp, inp)
+        for f in ck.failures:
+            print("REPLAY-FAILS:", json.dumps(f.classification), f.observed[:300])
+        if not ck.failures:
+            print("replay: the oracle does not fail on this input")
+        return 1 if ck.failures else 0
     if "stems" in inp:
         camp = ck.campaign("replay")
         multidoc_oracle(ck, camp, inp)
